@@ -1,7 +1,7 @@
 """C10 — whatever a decoder accepts is a well-formed, re-encodable value of the type (DESIGN §5 C10)."""
 import json
 
-from harness import common, gen, codec, engine, sexp_types
+from harness import common, gen, codec, engine, sexp_types, wire
 from harness.props import c08
 from pyasn1.type import univ, constraint, namedtype
 from pyasn1 import error
@@ -9,6 +9,19 @@ from pyasn1 import error
 
 def hastype(drv, t, v):
     return drv.ask('HASTYPE %s %s' % (gen.ty_sexp(t), gen.val_sexp(v))) == 'ok 1'
+
+
+def has_empty_record(t):
+    k = t[0]
+    if k == 'tag':
+        return has_empty_record(t[4])
+    if k in ('seq', 'set'):
+        return not t[1] or any(has_empty_record(f[2]) for f in t[1])
+    if k == 'choice':
+        return any(has_empty_record(f[2]) for f in t[1])
+    if k in ('seqof', 'setof'):
+        return has_empty_record(t[1])
+    return False
 
 
 def neighbours(rng, t):
@@ -78,6 +91,36 @@ def check_accepted(rep, drv, t, schema, data, cdc, origin):
         rep.disagree('DEC', replay, [gen.val_sexp(md[1]), md[2].hex()], [gen.val_sexp(v), r[2].hex()])
 
 
+def structural_mutants(rng, data, limit=12):
+    """near-valid inputs with one grammar rule broken: a member dropped, duplicated or moved, at any depth"""
+    import copy
+    try:
+        root, end = wire.read_tlv(data)
+    except Exception:  # noqa
+        return []
+    if end != len(data):
+        return []
+    out = []
+    nodes = [n for n, d in wire.all_nodes(root) if n['cons']]
+    rng.shuffle(nodes)
+    for n in nodes[:4]:
+        kids = n['children']
+        orig = list(kids)
+        for i in range(len(orig)):
+            n['children'] = orig[:i] + orig[i + 1:]
+            out.append(wire.emit(root))
+        for i in range(len(orig)):
+            n['children'] = orig[:i] + [orig[i]] + orig[i:]
+            out.append(wire.emit(root))
+        if len(orig) >= 2:
+            j = rng.randrange(len(orig) - 1)
+            n['children'] = orig[:j] + [orig[j + 1], orig[j]] + orig[j + 2:]
+            out.append(wire.emit(root))
+        n['children'] = orig
+    rng.shuffle(out)
+    return out[:limit]
+
+
 # ---- constrained types (value, size constraints) with an independent evaluator
 
 def constrained_cases():
@@ -141,7 +184,9 @@ def run(rep, tier, seed):
     rep.assumptions = ['constraints are exercised on a fixed family of constrained types, not generated', 'text codecs trusted']
     check_constrained(rep)
     for case in engine.gen_cases(rng, n, max_depth=3, allow_any=True):
-        if not engine.representable(case):
+        if not engine.representable(case) or has_empty_record(case.t):
+            # a record type without members cannot be declared in the library (an empty componentType means
+            # "no schema"): such positions accept anything by design, they are outside the typed universe
             continue
         inputs = []
         for mode in (rng.choice([('ber', True, 0), ('ber', False, 0), ('ber', False, 3)]), rng.choice([('cer', False, 1000), ('der', True, 0)])):
@@ -150,6 +195,8 @@ def run(rep, tier, seed):
                 inputs.append((ie[1], 'valid'))
                 for _ in range(3):
                     inputs.append((c08.mutate(rng, ie[1]), 'mutated'))
+                for m in structural_mutants(rng, ie[1]):
+                    inputs.append((m, 'member-dropped-duplicated-moved'))
         for t2 in neighbours(rng, case.t):
             g = gen.Gen(rng)
             try:
